@@ -53,7 +53,9 @@ func MkErr(o Outcome, variant int, where string) error {
 	case OK:
 		return nil
 	case Temp:
-		switch variant % 4 {
+		switch variant % 5 {
+		case 4:
+			return &exterrors.SMTPError{Code: 452, EnhancedCode: exterrors.EnhancedCode{4, 2, 2}, Message: "переполнен (non-ASCII text) " + where, TargetName: "scripted"}
 		case 0:
 			return &exterrors.SMTPError{Code: 451, EnhancedCode: exterrors.EnhancedCode{4, 3, 0}, Message: "scripted temporary failure " + where, TargetName: "scripted"}
 		case 1:
@@ -64,7 +66,9 @@ func MkErr(o Outcome, variant int, where string) error {
 			return exterrors.WithFields(&exterrors.SMTPError{Code: 421, EnhancedCode: exterrors.EnhancedCode{4, 4, 2}, Message: "scripted 421 " + where}, map[string]interface{}{"where": where})
 		}
 	case Perm:
-		switch variant % 3 {
+		switch variant % 4 {
+		case 3:
+			return &exterrors.SMTPError{Code: 550, EnhancedCode: exterrors.EnhancedCode{5, 1, 1}, Message: "ящик не найден (non-ASCII text) " + where, TargetName: "scripted"}
 		case 0:
 			return &exterrors.SMTPError{Code: 550, EnhancedCode: exterrors.EnhancedCode{5, 1, 1}, Message: "scripted permanent failure " + where, TargetName: "scripted"}
 		case 1:
